@@ -72,15 +72,16 @@ PROPS = {
         "explanation": "SymbolMap operations and the global-slot recycler's bytecode scan under contract; sequences bounded (maps/sets are loop-based models)",
     },
     "C04": {
-        "units": ["heap", "heapo", "roots"],
+        "units": ["heap", "heapo", "roots", "pmark"],
         "trusted_base": COMMON_TB + [
             "units/heap/prelude.rs: StandardShared=Arc / WeakShared=Weak (as crate::gc defines them for `sync`), MutContainer as RefCell with read()/write(), reduced SteelVal, channel stubs, log no-op",
             "std Arc/Weak/RefCell/Vec are executed as compiled by Kani",
             "units/roots/prelude_mark.rs: MarkAndSweepContext::push_back, MARKER.mark, Synchronizer::{stop_threads, enumerate_stacks, resume_threads} and Roots::increment_generation as ghost recorders; the marker's work list (a Vec in the real struct) as a 24-slot array with push and a slice view; GLOBAL_ROOTS as a lock around one Roots value",
+            "units/pmark/prelude.rs: payload types of the value kinds (real field names), im collections as sequences with the same iteration API, push_back / save of the by-reference marker as ghost recorders, reduced SteelVal",
             "units/roots/prelude_vm.rs: Heap::{allocate, allocate_vector, allocate_vector_iter, collection} as ghost recorders of the root sets they are handed; SteelThread with the root-holding fields only (checked against the real struct); enter_safepoint runs its closure once",
         ],
         "assumptions": [
-            "root enumeration is decided for Heap::mark (every root class it is handed reaches the marker) and for the VM call sites make_box / make_mutable_vector / make_mutable_vector_iter / gc_collect / new_box_handler / the `box` primitive (they hand over the whole operand stack, every frame, all globals, all thread-local slots); Synchronizer::enumerate_stacks (other threads' stacks), values that live only in Rust locals of native functions, the 36 visit_* arms beyond the container arms, the parallel marker and continuations/handlers are NOT covered",
+            "root enumeration is decided for Heap::mark (every root class it is handed reaches the marker) and for the VM call sites make_box / make_mutable_vector / make_mutable_vector_iter / gc_collect / new_box_handler / the `box` primitive (they hand over the whole operand stack, every frame, all globals, all thread-local slots); the by-reference marker that runs in `sync` builds: continuation, container, closure, transducer, reducer and syntax-object arms (unit pmark); Synchronizer::enumerate_stacks (other threads' stacks), values that live only in Rust locals of native functions, the list / custom-type / heap-handle arms of the by-reference marker and its worker threads are NOT covered",
             "free lists of at most 3 slots; the growth path inside allocate (EXTEND_CHUNK = 25600 slots) is out of CBMC's reach: allocate is proved for `a free slot remains`, grow_by separately",
         ],
         "explanation": "free-list allocate / weak collection / recount / grow and the mark-bit protocol under contract (bounded sizes)",
